@@ -5,6 +5,7 @@ package mdns
 import (
 	"net"
 
+	"github.com/enbility/go-avahi"
 	"github.com/enbility/ship-go/api"
 )
 
@@ -45,4 +46,19 @@ func (m *MdnsManager) VerifRawEntries() map[string]*api.MdnsEntry {
 // VerifShorten exposes the truncation of descriptive fields.
 func VerifShorten(s string, n int) string {
 	return shortenString(s, n)
+}
+
+// VerifNewAvahiProvider creates an Avahi provider that talks to the given server object
+// instead of the system's D-Bus.
+func VerifNewAvahiProvider(server avahi.ServerInterface, ifaceIndexes []int32) *AvahiProvider {
+	p := NewAvahiProvider(ifaceIndexes)
+	p.avServer = server
+	return p
+}
+
+// VerifAvahiState exposes the provider's bookkeeping.
+func (a *AvahiProvider) VerifAvahiState() (manualShutdown, listenerRunning, hasBrowser, hasEntryGroup, hasServiceData bool) {
+	a.mux.Lock()
+	defer a.mux.Unlock()
+	return a.manualShutdown, a.listenerRunning, a.avBrowser != nil, a.avEntryGroup != nil, a.mdnsServiceData != nil
 }
